@@ -175,6 +175,12 @@ func init() {
 			if plain == nil || len(ms) == 0 {
 				return
 			}
+			if strconv.IntSize == 32 && yearBeyondInt32(ms) {
+				// Time.Year() returns an int: on a 32-bit platform years beyond ±2^31 wrap, so which face of the known
+				// finding F17 shows there (an error, or the rewrite to 1970) differs from the model, which has Go's 64-bit
+				// arithmetic. Such time stamps are left to the 64-bit run.
+				return
+			}
 			for _, format := range []string{"json", "jsonsimple", "jsonmerged"} {
 				got := loop.ask("out " + format + " " + hexOf(plain))
 				impl := "err"
@@ -353,6 +359,23 @@ func init() {
 			run([]rscp.Message{{Tag: rscp.EMS_POWER_PV, DataType: rscp.Float32, Value: float32(f)}}, "nan-inf", true)
 		}
 	}
+}
+
+// yearBeyondInt32: some time stamp of the tree lies in a year that does not fit 32 bits (with a margin of a year)
+func yearBeyondInt32(ms []rscp.Message) bool {
+	for _, m := range ms {
+		switch v := m.Value.(type) {
+		case time.Time:
+			if y := v.Unix() / 31556952; y > 1<<31-1972 || y < -(1<<31)+1972 {
+				return true
+			}
+		case []rscp.Message:
+			if yearBeyondInt32(v) {
+				return true
+			}
+		}
+	}
+	return false
 }
 
 // failureSignature names the known reason why encoding/json cannot print a response (known findings of C13)
